@@ -45,76 +45,241 @@ def relation(paths, lvar_out):
     return alts, other
 
 
+def concretise(cat, model, names):
+    """model values of the variables of one line summary -> ({input: text}, {line: text})"""
+    from fractions import Fraction
+    I_, F_ = cat.hab_inputs, cat.hab_fields
+    ins, vals = {}, {}
+    owners = set()
+    for v in names:
+        kind, owner = owner_of(v)
+        if kind in ('input', 'line'):
+            owners.add((kind, owner))
+    tok = {}
+
+    def mv(name, srt):
+        return tm.model_value(model, tm.var(name, srt))
+    for kind, owner in sorted(owners):
+        try:
+            if kind == 'input':
+                inp = cat.input(owner)
+                t = type(inp)
+                vn = 'i:' + owner
+                if t is I_.BooleanInput:
+                    ins[owner] = 'yes' if mv(vn, 'B') else 'no'
+                elif t is I_.IntegerInput:
+                    ins[owner] = str(mv(vn, 'I'))
+                elif t is I_.FloatInput:
+                    ins[owner] = retmodel.frac_to_text(Fraction(mv(vn + '#k', 'I'), 100)) if (vn + '#k') in names else retmodel.frac_to_text(mv(vn, 'R'))
+                elif t is I_.EnumInput:
+                    k = mv(vn, 'I')
+                    members = list(inp.enum)
+                    ins[owner] = '' if k < 0 or k >= len(members) else members[k].name
+                elif t is I_.SSNInput:
+                    ins[owner] = '123-45-6789'
+                elif t is I_.RegexInput:
+                    ins[owner] = '011000015' if 'routing' in owner else '12345'
+                else:
+                    ins[owner] = '' if ((vn + '#empty') in names and mv(vn + '#empty', 'B')) else tok.setdefault(mv(vn + '#id', 'I') if (vn + '#id') in names else 0, 'T%d' % len(tok))
+            else:
+                fld = cat.field(owner)
+                t = type(fld)
+                vn = 'v:' + owner
+                if t is F_.FloatField:
+                    vals[owner] = fld.to_string(float(Fraction(mv(vn + '#k', 'I'), 10 ** fld._places)))
+                elif t is F_.IntegerField:
+                    vals[owner] = str(mv(vn, 'I'))
+                elif t is F_.BooleanField:
+                    vals[owner] = 'True' if mv(vn, 'B') else 'False'
+                elif t is F_.EnumField:
+                    k = mv(vn, 'I')
+                    members = list(fld.enum())
+                    vals[owner] = '' if k < 0 or k >= len(members) else members[k].name
+                else:
+                    vals[owner] = '' if ((vn + '#empty') in names and mv(vn + '#empty', 'B')) else tok.setdefault(mv(vn + '#id', 'I') if (vn + '#id') in names else 0, 'T%d' % len(tok))
+        except Exception:
+            continue
+    return ins, vals
+
+
+ROW = re.compile(r'^(.*_)(\d+)$')
+
+
+def _names_of(paths):
+    names = {}
+    for p in paths:
+        for t in list(p.conds) + list(p.assumes) + ([p.value[1]] if p.value and p.value[0] in ('num', 'enum') else []) + (list(p.value[1:3]) if p.value and p.value[0] == 'str' else []):
+            if isinstance(t, tm.T):
+                tm.free_vars(t, names)
+    return names
+
+
 def sym_task(arg):
+    """Renumbering invariance, inductive along the read graph.  Per-payer listing rows are not
+    invariant but *equivariant*: row k is a function of copy k, so swapping copies 0 and 1 swaps
+    rows 0 and 1 (checked: row0(x) == row1(pi x)); every other line must be invariant when the
+    copies and the rows they drive are swapped together."""
     year, form = arg
     os.environ['HV_PROCS'] = '1'
     K, S = 2, 2
     cat, summ, meta = retmodel.load_summaries(year, K, {'S': S, 'ft': 'uf', 'cents': True})
     res = {'year': year, 'form': form, 'obl': [], 'viol': [], 'samples': [], 'solver_s': 0.0, 'lines': 0}
+    c0, c1 = '%s:0.' % form, '%s:1.' % form
+    # ---- row families driven by this form
+    fam = {}
+    for n, paths in summ.items():
+        m = ROW.match(n)
+        if not m or not LISTING.match(n) or int(m.group(2)) > 1:
+            continue
+        k = int(m.group(2))
+        nm_ = _names_of(paths)
+        mine, other = ('%s:%d.' % (form, k)), ('%s:%d.' % (form, 1 - k))
+        if any(mine in v for v in nm_) and not any(other in v for v in nm_):
+            fam.setdefault(m.group(1), set()).add(k)
+    families = sorted(p for p, ks in fam.items() if ks == {0, 1})
+
+    def swap2(v):
+        w = swap_name(v, form)
+        if w != v:
+            return w
+        for pre in families:
+            for a, b in (('0', '1'), ('1', '0')):
+                base = 'v:' + pre + a
+                if v == base or v.startswith(base + '#'):
+                    return 'v:' + pre + b + v[len(base):]
+        return v
+
+    def relational(n, pathsA, pathsB, label, compare_values):
+        """exists x: outcome_A(x) != outcome_B(pi x) ?"""
+        names = _names_of(pathsA)
+        for k_, v_ in _names_of(pathsB).items():
+            names.setdefault(k_, v_)
+        mapping = {v: tm.var(swap2(v), srt) for v, srt in names.items() if swap2(v) != v}
+        # Rounding results are functional symbols named by the digest of the rounded term.  In the
+        # swapped copy a symbol whose argument mentions the copies must be the symbol of the
+        # *swapped* argument (otherwise one symbol would be tied to two different arguments, which
+        # over-constrains the query, or two symbols for equal arguments could break a tie differently).
+        rpairs = {}
+        for p in list(pathsA) + list(pathsB):
+            for asm in p.assumes:
+                if asm.op == 'and' and len(asm.args) == 2 and asm.args[0].op == 'le' and asm.args[0].args[0].op == 'sub':
+                    r_, t_ = asm.args[0].args[0].args
+                    fv = tm.free_vars(r_)
+                    if len(fv) == 1 and list(fv)[0].startswith('rnd'):
+                        rpairs[list(fv)[0]] = (r_, t_, list(fv.values())[0])
+        changed, rounds = True, 0
+        while changed and rounds < 6:
+            changed = False
+            rounds += 1
+            for rn, (r_, t_, srt) in rpairs.items():
+                t2 = tm.subst(t_, mapping)
+                if t2 is t_:
+                    continue
+                head, _, rest = rn.partition('!')
+                new = '%s!%s_%s' % (head, tm.digest(t2), rest.split('_', 1)[1])
+                if new != rn and (rn not in mapping or mapping[rn].val != new):
+                    mapping[rn] = tm.var(new, srt)
+                    changed = True
+        lemmas = []
+        orig_names = set(rpairs)
+        for rn, (r_, t_, srt) in rpairs.items():
+            if rn in mapping and mapping[rn].val not in orig_names:
+                r2, t2 = tm.subst(r_, mapping), tm.subst(t_, mapping)
+                for rn1, (r1, t1, _) in rpairs.items():
+                    if rn1 in mapping or any(swap2(v) != v for v in tm.free_vars(t1)):
+                        lemmas.append(tm.implies(tm.eq(t1, t2), tm.eq(r1, r2)))
+        t0 = time.time()
+        pA = [p for p in pathsA if p.kind not in ('cut',)]
+        pB = [p for p in pathsB if p.kind not in ('cut',)]
+        kinds = sorted(set(p.kind for p in pA + pB))
+        k1, k2 = tm.var('o1#kind', 'I'), tm.var('o2#kind', 'I')
+        vsort, is_str = None, False
+        for p in pA + pB:
+            if p.kind == 'value' and p.value[0] in ('num', 'enum'):
+                vsort = p.value[1].sort
+            elif p.kind == 'value' and p.value[0] == 'str':
+                is_str = True
+        cmpv = compare_values and (vsort is not None or is_str)
+        if cmpv and vsort is not None:
+            outs1, outs2 = [tm.var('o1#val', vsort)], [tm.var('o2#val', vsort)]
+        elif cmpv:
+            outs1, outs2 = [tm.var('o1#id', 'I'), tm.var('o1#empty', 'B')], [tm.var('o2#id', 'I'), tm.var('o2#empty', 'B')]
+        else:
+            outs1 = outs2 = []
+
+        def rel(plist, kvar, outs, sub):
+            alts = []
+            for p in plist:
+                c_ = tm.and_(*(list(p.conds) + list(p.assumes)))
+                parts = [c_]
+                if cmpv and p.kind == 'value' and vsort is not None and p.value[0] in ('num', 'enum') and p.value[1].sort == vsort:
+                    parts.append(tm.eq(tm.var('o1#val', vsort), p.value[1]))
+                elif cmpv and p.kind == 'value' and vsort is None and p.value[0] == 'str':
+                    # an empty text has no identity: only non-empty texts are compared by identity
+                    parts.append(tm.eq(tm.var('o1#empty', 'B'), p.value[2]))
+                    parts.append(tm.implies(tm.not_(p.value[2]), tm.eq(tm.var('o1#id', 'I'), p.value[1])))
+                t = tm.and_(*parts)
+                if sub:
+                    t = tm.subst(t, sub)
+                # output variables are tied after the substitution (the swap never renames them)
+                t = tm.subst(t, {'o1#val': outs[0]} if (cmpv and vsort is not None) else ({'o1#id': outs[0], 'o1#empty': outs[1]} if cmpv else {}))
+                alts.append(tm.and_(t, tm.eq(kvar, tm.I(kinds.index(p.kind)))))
+            return tm.or_(*alts)
+        s = z3.Solver()
+        s.set('timeout', 30000)
+        s.add(tm.to_z3(rel(pA, k1, outs1, None)))
+        s.add(tm.to_z3(rel(pB, k2, outs2, mapping)))
+        # renumbering permutes the copies that exist: both copies are present
+        s.add(tm.to_z3(tm.eq(tm.var('i:1040.number_%s' % form, 'I'), tm.I(2))))
+        for lm in lemmas[:20000]:
+            s.add(tm.to_z3(lm))
+        diffs = [tm.ne(k1, k2)]
+        if cmpv and 'value' in kinds:
+            both = tm.and_(tm.eq(k1, tm.I(kinds.index('value'))), tm.eq(k2, tm.I(kinds.index('value'))))
+            if vsort is not None:
+                diffs.append(tm.and_(both, tm.ne(outs1[0], outs2[0])))
+            else:
+                diffs.append(tm.and_(both, tm.or_(tm.ne(outs1[1], outs2[1]), tm.and_(tm.not_(outs1[1]), tm.ne(outs1[0], outs2[0])))))
+        s.add(tm.to_z3(tm.or_(*diffs)))
+        r = str(s.check())
+        dt = time.time() - t0
+        res['solver_s'] += dt
+        nm = 'ty%d/%s/%s/%s' % (year, label, form, n)
+        res['obl'].append((nm, r, dt))
+        if len(res['samples']) < 2:
+            res['samples'].append({'obligation': nm, 'query': 'exists values: line(x) != line(x with %s:0 and %s:1 swapped)' % (form, form), 'paths': len(pA), 'result': r})
+        if r == 'sat':
+            ins_, vals_ = concretise(cat, s.model(), names)
+            return ins_, vals_
+        return None
+
     for n, paths in summ.items():
         if n.startswith(form + ':'):
             continue
-        # only lines that mention the instances
-        mentions = False
-        names = {}
-        for p in paths:
-            for t in list(p.conds) + list(p.assumes) + ([p.value[1]] if p.value and p.value[0] in ('num', 'enum') else []):
-                tm.free_vars(t, names)
-        if not any(('%s:0.' % form) in v or ('%s:1.' % form) in v for v in names):
+        m = ROW.match(n)
+        if m and m.group(1) in families and LISTING.match(n):
+            if m.group(2) == '0':
+                res['lines'] += 1
+                w = relational(n, paths, summ[m.group(1) + '1'], 'renumber-rows', True)
+                if w is not None:
+                    res['viol'].append({'key': 'ty%d:renumber-rows:%s:%s' % (year, form, n), 'what': 'listing row %s of copy 0 differs from row %s1 of the same copy renumbered as 1' % (n, m.group(1)),
+                                        'replay': {'kind': 'line_fn', 'year': year, 'line': n, 'line_swapped': m.group(1) + '1', 'form': form, 'families': families, 'inputs': w[0], 'values': w[1]}})
             continue
+        names = _names_of(paths)
+        if not any(swap2(v) != v for v in names):
+            continue        # mentions neither the copies nor the rows they drive
         res['lines'] += 1
         if len(paths) > 400:
             res['obl'].append(('ty%d/renumber/%s/%s (%d paths: too large)' % (year, form, n, len(paths)), 'unknown', 0.0))
             continue
-        mapping = {v: tm.var(swap_name(v, form), srt) for v, srt in names.items() if swap_name(v, form) != v}
-        # one relational query per line: R(x, o1) and R(pi x, o2) and o1 != o2, where
-        # R(x, o) = OR_p (conds_p(x) and o == outcome_p(x)); outcome = (kind code, value)
-        t0 = time.time()
-        plist = [p for p in paths if p.kind not in ('cut',)]
-        kinds = sorted(set(p.kind for p in plist))
-        k1, k2 = tm.var('o1#kind', 'I'), tm.var('o2#kind', 'I')
-        vsort = None
-        for p in plist:
-            if p.kind == 'value' and p.value[0] in ('num', 'enum'):
-                vsort = p.value[1].sort
-        compare_values = vsort is not None and not LISTING.match(n)
-        if compare_values:
-            v1, v2 = tm.var('o1#val', vsort), tm.var('o2#val', vsort)
-
-        def rel(kvar, vvar, sub):
-            alts = []
-            for p in plist:
-                c = tm.and_(*(list(p.conds) + list(p.assumes)))
-                parts = [c, tm.eq(kvar, tm.I(kinds.index(p.kind)))]
-                if compare_values and p.kind == 'value' and p.value[0] in ('num', 'enum') and p.value[1].sort == vsort:
-                    parts.append(tm.eq(vvar, p.value[1]))
-                t = tm.and_(*parts)
-                alts.append(tm.subst(t, sub) if sub else t)
-            return tm.or_(*alts)
-        s = z3.Solver()
-        s.set('timeout', 30000)
-        s.add(tm.to_z3(rel(k1, v1 if compare_values else None, None)))
-        # the swapped copy must not rename the output variables
-        s.add(tm.to_z3(rel(k2, v2 if compare_values else None, mapping)))
-        # renumbering permutes the copies that exist: both copies are present
-        s.add(tm.to_z3(tm.eq(tm.var('i:1040.number_%s' % form, 'I'), tm.I(2))))
-        diffs = [tm.ne(k1, k2)]
-        if compare_values:
-            diffs.append(tm.and_(tm.eq(k1, tm.I(kinds.index('value'))) if 'value' in kinds else tm.FALSE, tm.ne(v1, v2)))
-        s.add(tm.to_z3(tm.or_(*diffs)))
-        r = str(s.check())
-        bad = None if r == 'unsat' else ('unknown' if r == 'unknown' else 'differs')
-        dt = time.time() - t0
-        res['solver_s'] += dt
-        nm = 'ty%d/renumber/%s/%s' % (year, form, n)
         if LISTING.match(n):
-            res['obl'].append((nm + ' (listing line, exempt)', 'unsat', 0.0))
+            res['obl'].append(('ty%d/renumber/%s/%s (listing line outside a row family, exempt)' % (year, form, n), 'unsat', 0.0))
             continue
-        res['obl'].append((nm, 'unknown' if bad == 'unknown' else ('sat' if bad else 'unsat'), dt))
-        if len(res['samples']) < 2:
-            res['samples'].append({'obligation': nm, 'query': 'exists values: line(x) != line(x with %s:0 and %s:1 swapped)' % (form, form), 'paths': len(plist), 'result': 'sat' if bad else 'unsat'})
-        if bad and bad != 'unknown':
-            res['viol'].append({'key': 'ty%d:renumber:%s:%s' % (year, form, n), 'what': 'line %s changes when the two copies of %s are renumbered' % (n, form)})
+        w = relational(n, paths, paths, 'renumber', True)
+        if w is not None:
+            res['viol'].append({'key': 'ty%d:renumber:%s:%s' % (year, form, n), 'what': 'line %s changes when the two copies of %s are renumbered' % (n, form),
+                                'replay': {'kind': 'line_fn', 'year': year, 'line': n, 'form': form, 'families': families, 'inputs': w[0], 'values': w[1]}})
+    res['row_families'] = families
     return res
 
 
@@ -364,7 +529,13 @@ def run(tier):
             c.obligation(nm, res, dt)
         c.samples.extend(r['samples'][:1])
         for v in r['viol']:
-            c.violation(v['key'], v['what'], {'kind': 'renumber', 'detail': v['what']})
+            out = common.run_real(['line_fn'], v['replay'])
+            c.replays_run += 1
+            if out.get('reproduced'):
+                c.violation(v['key'], v['what'] + ' [real definition: %s]' % out.get('detail'), v['replay'])
+            else:
+                c.spurious += 1
+                c.inconclusive.append('witness did not reproduce: %s (%s)' % (v['key'], out.get('detail')))
         c.extra.setdefault('lines_reading_copies', {})['%d/%s' % (r['year'], r['form'])] = r['lines']
     for r in common.pmap(modular_task, [(y, w) for y in years for w in ('wages', 'withholding', 'deduction')]):
         proved = 0
